@@ -396,8 +396,9 @@ def _field_table(ctx):
         r6_field_table(ctx)
 from .c03 import r6_streams_and_text_ranges as _text_ranges     # untouched columns are supplied as file text
 
-from ..through_time import make_rule as _mk_tt
+from ..through_time import make_rule as _mk_tt, make_t2 as _mk_t2
 _through_time = _mk_tt("C04")
+_small_edits = _mk_t2("C04")
 
 def _lazy_concatenate(ctx):
     from .c05 import r1_aligned_views
@@ -422,6 +423,7 @@ RULES = [
     ("C04-R9", _field_table),
     ("C04-R10", _text_ranges),
     ("C04-T1", _through_time),
+    ("C04-T2", _small_edits),
     ("C04-R11", _lazy_concatenate),
     ("C04-R12", _shared_tables_not_written),
     ("C04-R13", _late_bound_constants),
